@@ -201,9 +201,13 @@ class DiameterAssociation(object):
             if self.transport is None:
                 break
 
+            #: The transport thread appends to this buffer: take it and 
+            #: empty it in one step under the transport's lock.
+            self.transport.lock.acquire()
             data_stream = pending_stream + self.transport._recv_data_stream
             self.transport._recv_data_stream = b""
             self.transport._recv_data_available.clear()
+            self.transport.lock.release()
 
             diameter_conn_logger.debug("Grabbing data stream from "\
                                        "Transport Layer to Diameter Layer.")
